@@ -15,6 +15,25 @@ EmitEdge ==
                            to |-> Proj(rdStopped', rdHasBc', rdBc', rdNow', rdTimer', rdQuit', rdDone', flPc', reqPc', kpc', nDebounce')])>>)
 EmitInit == PrintT(<<"INIT", ToJson(Proj(rdStopped, rdHasBc, rdBc, rdNow, rdTimer, rdQuit, rdDone, flPc, reqPc, kpc, nDebounce))>>)
 InitMark == ((\A k \in Closers : kpc[k] = "idle") /\ (\A r \in Reqs : reqPc[r] = "idle") /\ nDebounce = 0 /\ flPc = "select") => EmitInit
+\* Coverage goals: TLC is asked for a behaviour that reaches each situation (the "invariant" is the negated
+\* goal; its counterexample is the behaviour).  The behaviours are replayed on the real refreshDebouncer and
+\* then left to run: every stop() must return and every listener must be resolved.
+PendingR == {r \in Requesters : rdHasBc /\ r \in rdBc /\ reqPc[r] = "waiting"}
+ServedR == {r \in Requesters : r \in flCur /\ reqPc[r] = "waiting"}
+\* stop() arrives while refreshFn runs and a further request is pending
+Goal_StopBusyPending == ~(rdStopped /\ flPc = "refreshing" /\ PendingR # {})
+\* ... with a listener being served and another one pending
+Goal_StopBusyServedAndPending == ~(rdStopped /\ flPc = "refreshing" /\ PendingR # {} /\ ServedR # {})
+\* ... with two listeners on the pending broadcaster
+Goal_StopBusyTwoPending == ~(rdStopped /\ flPc = "refreshing" /\ Cardinality(PendingR) = 2)
+\* stop() arrives between the flusher's select and its lock, a request pending
+Goal_StopWokePending == ~(rdStopped /\ flPc = "woke" /\ PendingR # {})
+\* stop() arrives while the flusher sits in its select with a request it has not picked up yet
+Goal_StopSelectPending == ~(rdStopped /\ flPc = "select" /\ PendingR # {})
+\* a request arrives after stop() marked the debouncer, while refreshFn still runs
+Goal_RequestAfterStopBusy == ~(rdStopped /\ flPc = "refreshing" /\ \E r \in Requesters : reqPc[r] = "closed")
+\* a request arrives after the flusher has gone
+Goal_RequestAfterExit == ~(flPc = "exited" /\ \E r \in Requesters : reqPc[r] = "closed" /\ \E q \in Requesters : reqPc[q] = "idle")
 \* walks end when nothing but stuttering is left
 NotIdle == ~(Finished /\ \A k \in Closers : kpc[k] = "done")
 =============================================================================
